@@ -1,9 +1,1630 @@
-//! File-level kinds of C04 (real BAM / BCF / bgzipped VCF files written, indexed and queried by
-//! noodles).  Filled in separately; an empty generator keeps c04 building.
-use nv::{Case, CaseWriter, Obs, Rng};
+//! File-level kinds of C04: real BAM / BCF / bgzipped VCF files written, indexed and queried by
+//! noodles; the verdict is "indexed region query == filtered full scan" with the scan filter
+//! (reference + span from POS/CIGAR resp. POS/REF/END/SVLEN/LEN) computed here, independently of
+//! noodles' alignment_end / variant_end.  Not modelled (obs "-").
+//!
+//!   bam   <seed> <opts>   opts = comma separated: p=mix|bulk|big|tiny|cg  g=<min_shift>:<depth> (CSI)
+//!   bcf   <seed> <opts>   opts: v=43|44|45  svd=0|1  p=mix|bulk|big|tiny
+//!   vcfgz <seed> <opts>   same opts as bcf
+//!
+//! Everything of a case (references, records, regions) derives from `Rng::new(seed)`.
+//!
+//! Index variants per file:
+//!   bam:   BAI by `bam::fs::index(path)` in memory; the same after `bai::fs::write` and
+//!          `bam::io::indexed_reader::Builder::build_from_path` (reads `<file>.bai`); CSI built by the
+//!          `csi::binning_index::Indexer<BinnedIndex>` loop of bam/fs/index.rs (default and
+//!          non-default geometry) in memory; the same after `csi::fs::write` + build_from_path.
+//!   bcf:   CSI by `bcf::fs::index(path)`, in memory and via `<file>.csi` + IndexedReader.
+//!   vcfgz: tabix by `vcf::fs::index(path)`, in memory and via `<file>.tbi` + IndexedReader.
+//!
+//! Span rule used by the oracle ("per the specs"):
+//!   BAM  end = POS + (sum of M,D,N,=,X lengths) - 1, or POS when that sum is 0.
+//!   VCF  fileformat <= 4.4: INFO END when present, else POS + |REF| - 1.
+//!        fileformat  = 4.5: max over the alleles of: REF and <INS>: POS + |REF| - 1;
+//!                    <DEL>/<DUP>/<INV>/<CNV> with SVLEN: POS + SVLEN; <*>: POS + max LEN - 1.
+//!   noodles' rule for 4.5 is POS + max(|REF|, max SVLEN, max LEN) - 1, which is one base short for
+//!   <DEL>-like alleles and extends <INS>; only `svd=1` files contain such records, and a mismatch
+//!   that is exactly the difference between the two rules gets the tag `vcf45-...`.
 
-pub fn generate(_rng: &mut Rng, _tier: &str, _w: &mut CaseWriter) {}
+use std::{
+    collections::{HashMap, HashSet},
+    fs,
+    io::{self, Cursor},
+    num::NonZero,
+    panic::AssertUnwindSafe,
+    path::{Path, PathBuf},
+};
 
-pub fn run(_c: &Case) -> Option<Obs> {
-    None
+use noodles_bam::{self as bam, bai};
+use noodles_bcf as bcf;
+use noodles_bgzf as bgzf;
+use noodles_core::{Position, Region, region::Interval};
+use noodles_csi::{
+    self as csi, BinningIndex,
+    binning_index::{
+        Indexer,
+        index::reference_sequence::{bin::Chunk, index::BinnedIndex},
+    },
+};
+use noodles_sam::{
+    self as sam,
+    alignment::{
+        Record as _, RecordBuf,
+        io::Write as _,
+        record::{
+            Flags,
+            cigar::{Op, op::Kind},
+        },
+        record_buf::{Cigar, QualityScores, Sequence},
+    },
+    header::record::value::{
+        Map,
+        map::{
+            self, ReferenceSequence,
+            header::{sort_order::COORDINATE, tag::SORT_ORDER},
+        },
+    },
+};
+use noodles_tabix as tabix;
+use noodles_vcf::{
+    self as vcf,
+    variant::{
+        Record as _,
+        io::Write as _,
+        record_buf::{
+            AlternateBases, Ids, Info, Samples,
+            info::field::{Value as IV, value::Array as IA},
+            samples::{Keys, sample::Value as SV},
+        },
+    },
+};
+use nv::{Case, CaseWriter, Obs, Outcome, Rng, errkind, guarded};
+
+// ---------------------------------------------------------------------------------------------
+// generation of case lines
+
+const CSI_GEOMS: &[(u64, u64)] = &[(14, 5), (14, 5), (14, 5), (14, 6), (12, 5), (15, 4), (10, 5), (13, 6)];
+
+pub fn generate(rng: &mut Rng, tier: &str, w: &mut CaseWriter) {
+    let thorough = tier == "thorough";
+    let (nbam, nbcf, nvcf) = if thorough { (300, 150, 150) } else { (24, 12, 14) };
+    for i in 0..nbam {
+        let p = match i % 12 {
+            0 => "tiny",
+            1 | 2 => "bulk",
+            3 | 4 => "big",
+            5 if thorough || i == 5 => "cg",
+            _ => "mix",
+        };
+        let (ms, d) = *rng.pick(CSI_GEOMS);
+        w.push("bam", vec![rng.next().to_string(), format!("p={p},g={ms}:{d}")]);
+    }
+    for (kind, n) in [("bcf", nbcf), ("vcfgz", nvcf)] {
+        for i in 0..n {
+            let p = match i % 7 {
+                0 => "tiny",
+                1 => "bulk",
+                2 => "big",
+                _ => "mix",
+            };
+            let (v, svd) = match (i / 2) % 6 {
+                0 | 1 => (43, 0),
+                2 => (44, 0),
+                3 => (45, 0),
+                4 => (45, 1),
+                _ => (44, 0),
+            };
+            let ec = if i % 4 == 1 { 1 } else { 0 };
+            // BCF: a one-element SVLEN wider than int8 makes the file unindexable (known), so
+            // most BCF svd files keep such values in two-allele records (svd=2)
+            let svd = if kind == "bcf" && svd == 1 && i % 12 != 8 { 2 } else { svd };
+            w.push(kind, vec![rng.next().to_string(), format!("p={p},v={v},svd={svd},ec={ec}")]);
+        }
+    }
+}
+
+fn opt<'a>(opts: &'a str, key: &str) -> Option<&'a str> {
+    opts.split(',').find_map(|kv| kv.strip_prefix(key).and_then(|r| r.strip_prefix('=')))
+}
+
+// ---------------------------------------------------------------------------------------------
+// temp dir
+
+struct Tmp(PathBuf);
+
+impl Tmp {
+    fn new(c: &Case) -> io::Result<Tmp> {
+        let seed = c.args.first().cloned().unwrap_or_default();
+        let p = std::env::temp_dir().join(format!("nv-c04-{}-{}-{}-{}", std::process::id(), c.kind, c.id, seed));
+        let _ = fs::remove_dir_all(&p);
+        fs::create_dir_all(&p)?;
+        Ok(Tmp(p))
+    }
+    fn path(&self, name: &str) -> PathBuf {
+        self.0.join(name)
+    }
+}
+
+impl Drop for Tmp {
+    fn drop(&mut self) {
+        let _ = fs::remove_dir_all(&self.0);
+    }
+}
+
+// ---------------------------------------------------------------------------------------------
+// what the oracle knows of a record, and regions
+
+#[derive(Clone, Debug)]
+struct Item {
+    name: String,
+    rid: Option<usize>,
+    s: u64,
+    /// end per the specs
+    e: u64,
+    /// end per noodles' documented rule (differs from `e` only in VCF 4.5 `svd` files)
+    e2: u64,
+    /// cause class when e != e2
+    cls: &'static str,
+    unmapped: bool,
+}
+
+#[derive(Clone, Debug)]
+struct Q {
+    rid: usize,
+    rname: String,
+    lo: Option<u64>,
+    hi: Option<u64>,
+}
+
+fn pos(n: u64) -> Position {
+    Position::try_from(n as usize).expect("position")
+}
+
+impl Q {
+    fn region(&self) -> Region {
+        let iv: Interval = match (self.lo, self.hi) {
+            (None, None) => (..).into(),
+            (Some(a), None) => (pos(a)..).into(),
+            (None, Some(b)) => (..=pos(b)).into(),
+            (Some(a), Some(b)) => (pos(a)..=pos(b)).into(),
+        };
+        Region::new(self.rname.clone(), iv)
+    }
+    fn hits(&self, s: u64, e: u64) -> bool {
+        s <= self.hi.unwrap_or(u64::MAX) && self.lo.unwrap_or(1) <= e
+    }
+    fn text(&self) -> String {
+        format!(
+            "{}:{}-{}",
+            self.rname,
+            self.lo.map(|x| x.to_string()).unwrap_or_default(),
+            self.hi.map(|x| x.to_string()).unwrap_or_default()
+        )
+    }
+}
+
+/// ~n regions: whole references (by name only), points at record ends and bin edges, bin-aligned
+/// windows, unbounded start / end, gaps hitting nothing, empty references
+fn gen_regions(rng: &mut Rng, refs: &[(String, u64)], items: &[Item], maxp: u64, shifts: &[(u64, u64)], n: usize, empty_refs: bool) -> Vec<Q> {
+    let placed: Vec<&Item> = items.iter().filter(|i| i.rid.is_some()).collect();
+    let mut count = vec![0usize; refs.len()];
+    for i in &placed {
+        count[i.rid.unwrap()] += 1;
+    }
+    let empties: Vec<usize> = (0..refs.len()).filter(|&r| count[r] == 0 && empty_refs).collect();
+    let q = |rid: usize, lo: Option<u64>, hi: Option<u64>| Q { rid, rname: refs[rid].0.clone(), lo, hi };
+    let cl = |x: i64| x.clamp(1, maxp as i64) as u64;
+    let mut out = Vec::new();
+    // always: one whole populated reference, one empty reference (whole and bounded), one gap
+    if let Some(i) = placed.first() {
+        let r = if rng.chance(1, 2) { i.rid.unwrap() } else { rng.pick(&placed).rid.unwrap() };
+        out.push(q(r, None, None));
+    }
+    if !empties.is_empty() {
+        let r = *rng.pick(&empties);
+        out.push(q(r, None, None));
+        let a = rng.range(1, refs[r].1.min(maxp));
+        out.push(q(r, Some(a), Some((a + rng.below(100000)).min(maxp))));
+    }
+    let gap = |rng: &mut Rng, out: &mut Vec<Q>| {
+        if placed.is_empty() {
+            return;
+        }
+        let r = rng.pick(&placed).rid.unwrap();
+        let on: Vec<&&Item> = placed.iter().filter(|i| i.rid == Some(r)).collect();
+        // gaps by running maximum of ends (both rules)
+        let mut gaps = Vec::new();
+        let mut me = 0u64;
+        for i in &on {
+            if me > 0 && i.s > me + 1 {
+                gaps.push((me + 1, i.s - 1));
+            }
+            me = me.max(i.e).max(i.e2);
+        }
+        if on[0].s > 1 {
+            gaps.push((1, on[0].s - 1));
+        }
+        if me < maxp {
+            gaps.push((me + 1, maxp));
+        }
+        if gaps.is_empty() {
+            return;
+        }
+        let (a, b) = *rng.pick(&gaps);
+        match rng.below(3) {
+            0 => out.push(q(r, Some(a), Some(b))),
+            1 => out.push(q(r, Some(a), Some(a))),
+            _ => {
+                let x = rng.range(a, b);
+                out.push(q(r, Some(x), Some(rng.range(x, b.min(x + 50000)))));
+            }
+        }
+    };
+    gap(rng, &mut out);
+    let mut guard = 0;
+    while out.len() < n && guard < 10 * n {
+        guard += 1;
+        if placed.is_empty() {
+            if !empty_refs {
+                break;
+            }
+            let r = rng.below(refs.len() as u64) as usize;
+            match rng.below(3) {
+                0 => out.push(q(r, None, None)),
+                1 => out.push(q(r, Some(rng.range(1, maxp)), None)),
+                _ => out.push(q(r, None, Some(rng.range(1, maxp)))),
+            }
+            continue;
+        }
+        let it = *rng.pick(&placed);
+        let r = it.rid.unwrap();
+        let (ms, d) = *rng.pick(shifts);
+        let lvl = rng.below(d + 1);
+        let w = 1u64 << (ms + 3 * lvl);
+        match rng.below(11) {
+            0 => {
+                let r = rng.below(refs.len() as u64) as usize;
+                if empty_refs || count[r] > 0 {
+                    out.push(q(r, None, None));
+                }
+            }
+            1 | 2 => {
+                // point at a record boundary
+                let p = match rng.below(7) {
+                    0 => it.s as i64 - 1,
+                    1 => it.s as i64,
+                    2 => it.e as i64,
+                    3 => it.e as i64 + 1,
+                    4 => it.e2 as i64,
+                    5 => it.e2 as i64 + 1,
+                    _ => (it.s + (it.e - it.s) / 2) as i64,
+                };
+                let p = cl(p);
+                out.push(q(r, Some(p), Some(p)));
+            }
+            3 => {
+                // point at a bin edge next to the record
+                let base = if rng.chance(1, 2) { it.s } else { it.e };
+                let edge = match rng.below(3) {
+                    0 => (base / w) * w,
+                    1 => (base / w + 1) * w,
+                    _ => ((base.max(1) - 1) / w) * w,
+                };
+                let p = cl(edge as i64 + rng.below(2) as i64);
+                out.push(q(r, Some(p), Some(p)));
+            }
+            4 => {
+                // bin aligned window containing the start or the end of the record
+                let base = if rng.chance(1, 2) { it.s } else { it.e };
+                let k = (base - 1) / w + if rng.chance(1, 4) { 1 } else { 0 };
+                let a = k * w + 1;
+                if a <= maxp {
+                    out.push(q(r, Some(a), Some(((k + 1) * w).min(maxp))));
+                }
+            }
+            5 => {
+                // unbounded start
+                let p = cl(match rng.below(4) {
+                    0 => it.s as i64 - 1,
+                    1 => it.s as i64,
+                    2 => it.e as i64,
+                    _ => it.s as i64 + rng.below(1000) as i64,
+                });
+                out.push(q(r, None, Some(p)));
+            }
+            6 => {
+                // unbounded end
+                let p = cl(match rng.below(4) {
+                    0 => it.e as i64 + 1,
+                    1 => it.e as i64,
+                    2 => it.s as i64,
+                    _ => it.s as i64 - rng.below(1000) as i64,
+                });
+                out.push(q(r, Some(p), None));
+            }
+            7 => gap(rng, &mut out),
+            8 => {
+                // around the record
+                let a = cl(it.s as i64 + rng.range(0, 6) as i64 - 3);
+                let b = cl(it.e as i64 + rng.range(0, 6) as i64 - 3).max(a);
+                match rng.below(4) {
+                    0 => out.push(q(r, Some(a), Some(b))),
+                    1 => out.push(q(r, Some(it.e), Some((it.e + rng.below(w)).min(maxp)))),
+                    2 => out.push(q(r, Some(it.s.saturating_sub(rng.below(w)).max(1)), Some(it.s))),
+                    _ => out.push(q(r, Some(cl(it.e2 as i64 + 1)), Some(cl(it.e2 as i64 + 1 + rng.below(40) as i64)))),
+                }
+            }
+            9 => {
+                // from before the record's window into it (the linear index / loffset pruning case)
+                let a = cl(it.s as i64 - rng.below(3 * w) as i64);
+                let b = cl(it.s as i64 + rng.below(w) as i64).max(a);
+                out.push(q(r, Some(a), Some(b)));
+            }
+            _ => {
+                let a = rng.range(1, refs[r].1.min(maxp));
+                let sh = rng.below(20);
+                let b = (a + rng.below(1 + (maxp >> sh))).min(maxp);
+                out.push(q(r, Some(a), Some(b)));
+            }
+        }
+    }
+    out
+}
+
+// ---------------------------------------------------------------------------------------------
+// layout of sorted spans on one reference: (start, span, big); span 0 = zero-length
+
+struct Profile {
+    tiny: bool,
+    bulk: bool,
+    big: bool,
+}
+
+fn profile(opts: &str) -> Profile {
+    let p = opt(opts, "p").unwrap_or("mix");
+    Profile { tiny: p == "tiny", bulk: p == "bulk", big: p == "big" }
+}
+
+fn layout(rng: &mut Rng, len: u64, shifts: &[(u64, u64)], pr: &Profile) -> Vec<(u64, u64, bool)> {
+    let mut out: Vec<(u64, u64, bool)> = Vec::new();
+    if pr.tiny {
+        let mut s = rng.range(1, len);
+        for _ in 0..rng.below(3) {
+            let span = (*rng.pick(&[0u64, 1, 30, 20000, 1 << 17])).min(len - s + 1);
+            out.push((s, span, false));
+            s = (s + rng.below(40000)).min(len);
+        }
+        return out;
+    }
+    let mut cur = if rng.chance(1, 3) { 1 } else { rng.range(1, (len / 4).max(1)) };
+    let nseg = rng.range(1, 4);
+    let small = |rng: &mut Rng| match rng.below(8) {
+        0 => 0,
+        1 => 1,
+        _ => rng.range(1, 200),
+    };
+    for _ in 0..nseg {
+        if cur > len {
+            break;
+        }
+        let (ms, d) = *rng.pick(shifts);
+        let lvl = match rng.below(6) {
+            0 | 1 => 0,
+            _ => rng.below(d + 1),
+        };
+        let w = 1u64 << (ms + 3 * lvl);
+        let seg = if pr.bulk && rng.chance(1, 2) { 4 } else { rng.below(5) };
+        match seg {
+            0 | 1 => {
+                // cluster at the next edge of this level at or after cur
+                let k = cur.div_ceil(w).max(1);
+                let edge = k * w; // 1-based: `edge` is the last position of bin k-1, edge+1 the first of bin k
+                if edge + 1 > len {
+                    // no such edge on this reference: a short sparse run instead
+                    for _ in 0..rng.range(2, 8) {
+                        if cur > len {
+                            break;
+                        }
+                        out.push((cur, small(rng), false));
+                        cur += rng.below(300);
+                    }
+                    continue;
+                }
+                let mut s = cur.max(edge.saturating_sub(rng.below(400)).max(1));
+                for _ in 0..rng.range(4, 30) {
+                    if s > len {
+                        break;
+                    }
+                    let span = match rng.below(8) {
+                        0 if s <= edge => edge - s + 1,
+                        1 if s <= edge + 1 => edge - s + 2,
+                        2 => 0,
+                        3 => rng.range(1, 2 * w.min(1 << 22)),
+                        _ => small(rng),
+                    };
+                    out.push((s, span, false));
+                    s += match rng.below(4) {
+                        0 => 0,
+                        1 => 1,
+                        _ => rng.below(60),
+                    };
+                }
+                cur = s;
+            }
+            2 => {
+                // a long record followed by short ones inside / after its span
+                let s = cur + rng.below(50000);
+                if s > len {
+                    continue;
+                }
+                let room = len - s + 1;
+                let span = match rng.below(5) {
+                    0 => rng.range(16000, 100000),
+                    1 => rng.range(1 << 17, (1 << 20) + 5000),
+                    2 => rng.range(1 << 20, (1 << 26) + 5000),
+                    3 => rng.range(1, room),
+                    _ => w + rng.below(w),
+                }
+                .min(room);
+                out.push((s, span, false));
+                let n = rng.range(5, 40);
+                let reach = match rng.below(3) {
+                    0 => span,
+                    1 => span.min(200000),
+                    _ => span + 40000,
+                };
+                let mut starts: Vec<u64> = (0..n).map(|_| s + rng.below(reach.max(1))).collect();
+                starts.sort();
+                for t in starts {
+                    if t > len {
+                        break;
+                    }
+                    out.push((t, small(rng), false));
+                    cur = t;
+                }
+            }
+            3 => {
+                // sparse jumps
+                let n = rng.range(3, 20);
+                let stepmax = (len.saturating_sub(cur)) / (n * 2) + 1;
+                for _ in 0..n {
+                    cur += rng.below(stepmax);
+                    if cur > len {
+                        break;
+                    }
+                    let span = match rng.below(5) {
+                        0 => rng.range(1, 40000),
+                        1 => {
+                            let sh = rng.range(1, 24);
+                            rng.range(1, 1 << sh)
+                        }
+                        _ => small(rng),
+                    };
+                    out.push((cur, span, false));
+                }
+            }
+            _ => {
+                // dense run of small records (many per BGZF block)
+                let n = if pr.bulk { rng.range(600, 2500) } else { rng.range(40, 300) };
+                for _ in 0..n {
+                    if cur > len {
+                        break;
+                    }
+                    out.push((cur, rng.range(20, 150), false));
+                    cur += rng.below(25);
+                }
+            }
+        }
+        if rng.chance(1, 2) {
+            cur += rng.below(3 * w);
+        }
+    }
+    // records larger than a BGZF block
+    if pr.big && !out.is_empty() {
+        for _ in 0..rng.range(1, 3) {
+            let i = rng.below(out.len() as u64) as usize;
+            let (s, _, _) = out[i];
+            let span = rng.range(66000, 150000).min(len - s + 1);
+            out[i] = (s, span, true);
+        }
+    }
+    // clamp to the reference and make starts non-decreasing
+    let mut last = 1u64;
+    for r in out.iter_mut() {
+        r.0 = r.0.max(last).min(len);
+        last = r.0;
+        r.1 = r.1.min(len - r.0 + 1);
+    }
+    out
+}
+
+fn ref_lengths(rng: &mut Rng, maxp: u64, pr: &Profile) -> Vec<u64> {
+    let menu = [maxp, maxp, maxp / 2 + 12345, maxp / 8 + 1, 3_000_000u64.min(maxp), 200_000, 40_000, 17_000, 500];
+    let n = if pr.tiny { rng.range(1, 3) } else { rng.range(2, 6) };
+    (0..n).map(|_| *rng.pick(&menu)).collect()
+}
+
+/// which references get records (some stay empty, possibly the first or the last)
+fn populated(rng: &mut Rng, n: usize, pr: &Profile) -> Vec<bool> {
+    let mut v: Vec<bool> = (0..n).map(|_| rng.chance(2, 3)).collect();
+    if !pr.tiny && !v.iter().any(|&b| b) {
+        v[rng.below(n as u64) as usize] = true;
+    }
+    if pr.tiny && rng.chance(1, 3) {
+        v.iter_mut().for_each(|b| *b = false);
+    }
+    v
+}
+
+// ---------------------------------------------------------------------------------------------
+// comparison of one answer with the scan
+
+#[derive(Clone, Debug, PartialEq)]
+enum Ans {
+    Names(Vec<String>),
+    /// error kind, message
+    Err(String, String),
+    Panic(String),
+}
+
+/// None = equal; Some(class) = "missing-record" | "duplicate" | "extra-record" | "order"
+fn diff_class(want: &[String], got: &[String]) -> Option<&'static str> {
+    if want == got {
+        return None;
+    }
+    let ws: HashSet<&String> = want.iter().collect();
+    let gs: HashSet<&String> = got.iter().collect();
+    if want.iter().any(|n| !gs.contains(n)) {
+        return Some("missing-record");
+    }
+    if gs.len() != got.len() {
+        return Some("duplicate");
+    }
+    if got.iter().any(|n| !ws.contains(n)) {
+        return Some("extra-record");
+    }
+    Some("order")
+}
+
+fn short(v: &[String]) -> String {
+    if v.len() <= 12 {
+        format!("{v:?}")
+    } else {
+        format!("[{} names: {:?} .. {:?}]", v.len(), &v[..4], &v[v.len() - 3..])
+    }
+}
+
+struct Failure {
+    /// lower = reported first
+    rank: u32,
+    tag: String,
+    detail: String,
+}
+
+struct Verdicts {
+    fails: Vec<Failure>,
+    nontrivial: bool,
+}
+
+impl Verdicts {
+    fn new() -> Self {
+        Verdicts { fails: Vec::new(), nontrivial: false }
+    }
+    fn fail(&mut self, rank: u32, tag: impl Into<String>, detail: impl Into<String>) {
+        self.fails.push(Failure { rank, tag: tag.into(), detail: detail.into() });
+    }
+    fn finish(mut self) -> Obs {
+        self.fails.sort_by_key(|f| f.rank);
+        if std::env::var("NV_C04_STATS").is_ok() {
+            for f in &self.fails {
+                eprintln!("  fail[{}] {} {}", f.rank, f.tag, &f.detail[..f.detail.len().min(300)]);
+            }
+        }
+        match self.fails.first() {
+            None => Obs::ok("-", self.nontrivial),
+            Some(f) => {
+                let mut o = Obs::fail("-", &f.tag, &f.detail);
+                o.nontrivial = true;
+                o
+            }
+        }
+    }
+}
+
+/// Compare the answers of every index variant with the scan, region by region.
+/// `variants[k] = (label, via_file, answers per region)`; labels like "bai", "csi", "tabix".
+/// `known_err(q)` = Some(tag) when an error answer for this region is a separately named class.
+fn judge_regions(
+    v: &mut Verdicts,
+    fmt: &str,
+    items: &[Item],
+    order: &[String],
+    regions: &[Q],
+    variants: &[(String, bool, Vec<Ans>)],
+    known_err: &dyn Fn(&Q, &str) -> Option<&'static str>,
+) {
+    let by_name: HashMap<&String, &Item> = items.iter().map(|i| (&i.name, i)).collect();
+    let mut per_ref: HashMap<usize, usize> = HashMap::new();
+    for i in items {
+        if let Some(r) = i.rid {
+            *per_ref.entry(r).or_default() += 1;
+        }
+    }
+    for (qi, q) in regions.iter().enumerate() {
+        let keep = |spec: bool| -> Vec<String> {
+            order
+                .iter()
+                .filter(|n| {
+                    let i = by_name[n];
+                    i.rid == Some(q.rid) && q.hits(i.s, if spec { i.e } else { i.e2 })
+                })
+                .cloned()
+                .collect()
+        };
+        let want = keep(true);
+        let want2 = keep(false);
+        let nref = per_ref.get(&q.rid).copied().unwrap_or(0);
+        if !want.is_empty() && want.len() < nref {
+            v.nontrivial = true;
+        }
+        if std::env::var("NV_C04_STATS").is_ok() {
+            eprintln!("  region {} want={} of {}", q.text(), want.len(), nref);
+        }
+        let mut mem_ok: HashMap<&str, bool> = HashMap::new();
+        for (label, via_file, answers) in variants {
+            let how = if *via_file { "file" } else { "mem" };
+            match &answers[qi] {
+                Ans::Panic(m) => v.fail(5, format!("{fmt}-{label}-query-panic"), format!("region {} index-{how}: {m}", q.text())),
+                Ans::Err(k, m) => {
+                    if let Some(tag) = known_err(q, k) {
+                        v.fail(90, tag, format!("region {} index-{how}: Err({k}: {m}), scan keeps {}", q.text(), short(&want)));
+                    } else {
+                        v.fail(10, format!("{fmt}-{label}-query-error"), format!("region {} index-{how}: Err({k}: {m}), scan keeps {}", q.text(), short(&want)));
+                    }
+                    if !*via_file {
+                        mem_ok.insert(label.as_str(), false);
+                    }
+                }
+                Ans::Names(got) => {
+                    let cls = diff_class(&want, got);
+                    if !*via_file {
+                        mem_ok.insert(label.as_str(), cls.is_none());
+                    }
+                    let Some(cls) = cls else { continue };
+                    let detail = format!("region {} index-{how}: scan={} indexed={}", q.text(), short(&want), short(got));
+                    if *via_file && mem_ok.get(label.as_str()) == Some(&true) {
+                        v.fail(15, "index-roundtrip-changes-answer", format!("{fmt}-{label} {detail}"));
+                    } else if *got == want2 {
+                        // exactly the difference between the spec rule and noodles' rule
+                        let culprit = items
+                            .iter()
+                            .find(|i| i.rid == Some(q.rid) && q.hits(i.s, i.e) != q.hits(i.s, i.e2))
+                            .map(|i| (i.cls, i.name.clone()))
+                            .unwrap_or(("span-rule-differs-from-spec", String::new()));
+                        v.fail(80, culprit.0, format!("record {} {fmt}-{label} {detail}", culprit.1));
+                    } else {
+                        v.fail(20, format!("{fmt}-{label}-query-{cls}"), detail);
+                    }
+                }
+            }
+        }
+    }
+}
+
+fn stats(fmt: &str, nrec: &usize, bytes: usize, regions: &[Q]) {
+    if std::env::var("NV_C04_STATS").is_ok() {
+        eprintln!("{fmt} records={nrec} bytes={bytes} regions={}", regions.len());
+    }
+}
+
+fn ans_of<T>(o: Outcome<io::Result<T>>) -> Result<T, Ans> {
+    match o {
+        Outcome::Done(Ok(x)) => Ok(x),
+        Outcome::Done(Err(e)) => Err(Ans::Err(errkind(&e), e.to_string().replace(['\t', '\n'], " "))),
+        Outcome::Panicked(m) => Err(Ans::Panic(m)),
+    }
+}
+
+// ---------------------------------------------------------------------------------------------
+// BAM
+
+const OP_M: u8 = 0;
+const OP_I: u8 = 1;
+const OP_D: u8 = 2;
+const OP_N: u8 = 3;
+const OP_S: u8 = 4;
+const OP_H: u8 = 5;
+const OP_P: u8 = 6;
+const OP_EQ: u8 = 7;
+const OP_X: u8 = 8;
+const MAX_OP: u64 = (1 << 28) - 1;
+
+fn kind_of(k: u8) -> Kind {
+    match k {
+        OP_M => Kind::Match,
+        OP_I => Kind::Insertion,
+        OP_D => Kind::Deletion,
+        OP_N => Kind::Skip,
+        OP_S => Kind::SoftClip,
+        OP_H => Kind::HardClip,
+        OP_P => Kind::Pad,
+        OP_EQ => Kind::SequenceMatch,
+        _ => Kind::SequenceMismatch,
+    }
+}
+
+/// reference length of a CIGAR per SAMv1 ("consumes reference": M D N = X)
+fn cigar_ref_len(c: &[(u8, usize)]) -> u64 {
+    c.iter().filter(|(k, _)| matches!(*k, OP_M | OP_D | OP_N | OP_EQ | OP_X)).map(|(_, l)| *l as u64).sum()
+}
+
+/// read length of a CIGAR ("consumes query": M I S = X)
+fn cigar_read_len(c: &[(u8, usize)]) -> usize {
+    c.iter().filter(|(k, _)| matches!(*k, OP_M | OP_I | OP_S | OP_EQ | OP_X)).map(|(_, l)| *l).sum()
+}
+
+fn make_cigar(rng: &mut Rng, span: u64, big: bool) -> Vec<(u8, usize)> {
+    let mlike = |rng: &mut Rng| *rng.pick(&[OP_M, OP_M, OP_M, OP_EQ, OP_X]);
+    let mut mid: Vec<(u8, usize)> = Vec::new();
+    if span == 0 {
+        match rng.below(7) {
+            0 => {}
+            1 => mid.push((OP_S, rng.range(1, 40) as usize)),
+            2 => mid.push((OP_I, rng.range(1, 40) as usize)),
+            3 => {
+                mid.push((OP_S, rng.range(1, 9) as usize));
+                mid.push((OP_I, rng.range(1, 9) as usize));
+                mid.push((OP_S, rng.range(1, 9) as usize));
+            }
+            4 => {
+                mid.push((OP_I, rng.range(1, 9) as usize));
+                mid.push((OP_P, rng.range(1, 3) as usize));
+                mid.push((OP_I, rng.range(1, 9) as usize));
+            }
+            5 => mid.push((OP_H, rng.range(1, 9) as usize)),
+            _ => {
+                mid.push((OP_H, rng.range(1, 9) as usize));
+                mid.push((OP_S, rng.range(1, 30) as usize));
+            }
+        }
+        return mid;
+    }
+    let mut rem = span;
+    let first = if big { rem.min(rng.range(50_000, 120_000)) } else { rem.min(rng.range(1, 100)) };
+    mid.push((mlike(rng), first as usize));
+    rem -= first;
+    let mut gaps = 0;
+    while rem > 0 {
+        if rem <= 100 || (rem <= 300 && rng.chance(1, 3)) {
+            if rng.chance(1, 4) {
+                mid.push((if rng.chance(1, 2) { OP_I } else { OP_P }, rng.range(1, 6) as usize));
+            }
+            mid.push((mlike(rng), rem as usize));
+            rem = 0;
+        } else {
+            let tail = rng.range(1, 100);
+            let mut g = if gaps >= 5 || rng.chance(1, 2) { rem - tail } else { rng.range(1, rem - tail) };
+            g = g.min(MAX_OP);
+            let k = if g < 1000 && rng.chance(1, 2) { OP_D } else { OP_N };
+            mid.push((k, g as usize));
+            rem -= g;
+            gaps += 1;
+            if rng.chance(1, 4) {
+                mid.push((if rng.chance(1, 2) { OP_I } else { OP_P }, rng.range(1, 6) as usize));
+            }
+            let m = rem.min(rng.range(1, 100));
+            if m > 0 {
+                mid.push((mlike(rng), m as usize));
+                rem -= m;
+            }
+        }
+    }
+    let mut out = Vec::new();
+    if rng.chance(1, 8) {
+        out.push((OP_H, rng.range(1, 20) as usize));
+    }
+    if rng.chance(1, 4) {
+        out.push((OP_S, rng.range(1, 30) as usize));
+    }
+    out.extend(mid);
+    if rng.chance(1, 4) {
+        out.push((OP_S, rng.range(1, 30) as usize));
+    }
+    if rng.chance(1, 8) {
+        out.push((OP_H, rng.range(1, 20) as usize));
+    }
+    out
+}
+
+struct BRec {
+    name: String,
+    flags: u16,
+    rid: Option<usize>,
+    pos: Option<u64>,
+    cigar: Vec<(u8, usize)>,
+    quals: bool,
+}
+
+fn bam_record_buf(rng: &mut Rng, r: &BRec) -> RecordBuf {
+    let mut b = RecordBuf::default();
+    *b.name_mut() = Some(r.name.clone().into());
+    *b.flags_mut() = Flags::from(r.flags);
+    *b.reference_sequence_id_mut() = r.rid;
+    *b.alignment_start_mut() = r.pos.map(pos);
+    *b.cigar_mut() = r.cigar.iter().map(|(k, l)| Op::new(kind_of(*k), *l)).collect::<Cigar>();
+    let n = cigar_read_len(&r.cigar);
+    let n = if r.cigar.is_empty() { rng.below(40) as usize } else { n };
+    let seq: Vec<u8> = (0..n).map(|_| b"ACGT"[rng.below(4) as usize]).collect();
+    *b.sequence_mut() = Sequence::from(seq);
+    if r.quals {
+        *b.quality_scores_mut() = QualityScores::from((0..n).map(|_| rng.below(41) as u8).collect::<Vec<u8>>());
+    }
+    b
+}
+
+struct BamFile {
+    refs: Vec<(String, u64)>,
+    recs: Vec<BRec>,
+    geom: (u64, u64),
+    maxp: u64,
+}
+
+fn gen_bam(rng: &mut Rng, opts: &str) -> BamFile {
+    let pr = profile(opts);
+    let cg = opt(opts, "p") == Some("cg");
+    let geom = opt(opts, "g")
+        .and_then(|g| g.split_once(':'))
+        .map(|(a, b)| (a.parse().unwrap(), b.parse().unwrap()))
+        .unwrap_or((14, 5));
+    let maxp = ((1u64 << (geom.0 + 3 * geom.1)) - 1).min((1 << 29) - 1);
+    let shifts = [(14u64, 5u64), geom];
+    let lens = ref_lengths(rng, maxp, &pr);
+    let pop = populated(rng, lens.len(), &pr);
+    let refs: Vec<(String, u64)> = lens.iter().enumerate().map(|(i, l)| (format!("ref{i}"), *l)).collect();
+    let mut recs = Vec::new();
+    let mut cg_done = !cg;
+    for (rid, (_, len)) in refs.iter().enumerate() {
+        if !pop[rid] {
+            continue;
+        }
+        let lay = layout(rng, *len, &shifts, &pr);
+        let cg_at = if !cg_done && !lay.is_empty() { Some(rng.below(lay.len() as u64) as usize) } else { None };
+        for (i, (s, span, big)) in lay.into_iter().enumerate() {
+            let mut cigar = make_cigar(rng, span, big);
+            if cg_at == Some(i) && *len - s + 1 > 70000 {
+                // more than 65535 operations: stored as kSmN + CG:B,I by the writer
+                cigar = Vec::new();
+                for _ in 0..33000 {
+                    cigar.push((OP_M, 1));
+                    cigar.push((if rng.chance(1, 2) { OP_D } else { OP_I }, 1));
+                }
+                cg_done = true;
+            }
+            let placed_unmapped = rng.chance(1, 12);
+            let flags = if placed_unmapped { 4 | if rng.chance(1, 2) { 1 | 8 } else { 0 } } else { *rng.pick(&[0u16, 16, 99, 147, 0x400, 0x100]) };
+            if placed_unmapped && rng.chance(1, 2) {
+                cigar.clear();
+            }
+            recs.push(BRec { name: format!("r{}", recs.len()), flags, rid: Some(rid), pos: Some(s), cigar, quals: rng.chance(2, 3) });
+        }
+    }
+    // unplaced tail
+    let ntail = if pr.tiny { rng.below(3) } else { rng.below(16) };
+    let odd = rng.chance(1, 10);
+    for k in 0..ntail {
+        let flags = if odd && k == ntail / 2 { 0 } else { *rng.pick(&[4u16, 77, 141, 4 | 0x200]) };
+        recs.push(BRec { name: format!("r{}", recs.len()), flags, rid: None, pos: None, cigar: Vec::new(), quals: rng.chance(1, 2) });
+    }
+    BamFile { refs, recs, geom, maxp }
+}
+
+fn bam_header(refs: &[(String, u64)]) -> sam::Header {
+    let mut b = sam::Header::builder().set_header(
+        Map::<map::Header>::builder().insert(SORT_ORDER, COORDINATE).build().expect("hd"),
+    );
+    for (n, l) in refs {
+        b = b.add_reference_sequence(n.as_str(), Map::<ReferenceSequence>::new(NonZero::new(*l as usize).unwrap()));
+    }
+    b.build()
+}
+
+fn write_bam(rng: &mut Rng, f: &BamFile) -> io::Result<Vec<u8>> {
+    let header = bam_header(&f.refs);
+    let mut w = bam::io::Writer::new(Vec::new());
+    w.write_header(&header)?;
+    for r in &f.recs {
+        let rb = bam_record_buf(rng, r);
+        w.write_alignment_record(&header, &rb)?;
+    }
+    w.try_finish()?;
+    Ok(w.into_inner().into_inner())
+}
+
+/// the CSI equivalent of bam::fs::index (same loop, binned index, chosen geometry)
+fn bam_csi_index(data: &[u8], ms: u8, d: u8) -> io::Result<csi::Index> {
+    let mut reader = bam::io::Reader::new(data);
+    let header = reader.read_header()?;
+    let mut ix = Indexer::<BinnedIndex>::new(ms, d);
+    let mut record = bam::Record::default();
+    let mut start = reader.get_ref().virtual_position();
+    while reader.read_record(&mut record)? != 0 {
+        let end = reader.get_ref().virtual_position();
+        let ctx = match (
+            record.reference_sequence_id().transpose()?,
+            record.alignment_start().transpose()?,
+            record.alignment_end().transpose()?,
+        ) {
+            (Some(id), Some(s), Some(e)) => Some((id, s, e, !record.flags().is_unmapped())),
+            _ => None,
+        };
+        ix.add_record(ctx, Chunk::new(start, end))?;
+        start = end;
+    }
+    Ok(ix.build(header.reference_sequences().len()))
+}
+
+fn rec_name(r: &bam::Record) -> String {
+    r.name().map(|n| String::from_utf8_lossy(n.as_ref()).into_owned()).unwrap_or_default()
+}
+
+fn bam_answers_mem<I: BinningIndex>(data: &[u8], index: &I, regions: &[Q]) -> (Vec<Ans>, Ans) {
+    let mut out = Vec::new();
+    for q in regions {
+        let r = guarded(AssertUnwindSafe(|| -> io::Result<Vec<String>> {
+            let mut reader = bam::io::Reader::new(Cursor::new(data));
+            let header = reader.read_header()?;
+            let query = reader.query(&header, index, &q.region())?;
+            query.records().map(|r| r.map(|r| rec_name(&r))).collect()
+        }));
+        out.push(match ans_of(r) {
+            Ok(v) => Ans::Names(v),
+            Err(a) => a,
+        });
+    }
+    let u = guarded(AssertUnwindSafe(|| -> io::Result<Vec<String>> {
+        let mut reader = bam::io::Reader::new(Cursor::new(data));
+        reader.read_header()?;
+        let it = reader.query_unmapped(index)?;
+        it.map(|r| r.map(|r| rec_name(&r))).collect()
+    }));
+    let u = match ans_of(u) {
+        Ok(v) => Ans::Names(v),
+        Err(a) => a,
+    };
+    (out, u)
+}
+
+fn bam_answers_file(path: &Path, regions: &[Q]) -> (Vec<Ans>, Ans) {
+    let mut out = Vec::new();
+    for q in regions {
+        let r = guarded(AssertUnwindSafe(|| -> io::Result<Vec<String>> {
+            let mut reader = bam::io::indexed_reader::Builder::default().build_from_path(path)?;
+            let header = reader.read_header()?;
+            let query = reader.query(&header, &q.region())?;
+            query.records().map(|r| r.map(|r| rec_name(&r))).collect()
+        }));
+        out.push(match ans_of(r) {
+            Ok(v) => Ans::Names(v),
+            Err(a) => a,
+        });
+    }
+    let u = guarded(AssertUnwindSafe(|| -> io::Result<Vec<String>> {
+        let mut reader = bam::io::indexed_reader::Builder::default().build_from_path(path)?;
+        reader.read_header()?;
+        let it = reader.query_unmapped()?;
+        it.map(|r| r.map(|r| rec_name(&r))).collect()
+    }));
+    let u = match ans_of(u) {
+        Ok(v) => Ans::Names(v),
+        Err(a) => a,
+    };
+    (out, u)
+}
+
+fn judge_unmapped(v: &mut Verdicts, label: &str, how: &str, items: &[Item], order: &[String], ans: &Ans) {
+    let by_name: HashMap<&String, &Item> = items.iter().map(|i| (&i.name, i)).collect();
+    let want: Vec<String> = order.iter().filter(|n| by_name[n].rid.is_none() && by_name[n].unmapped).cloned().collect();
+    match ans {
+        Ans::Panic(m) => v.fail(5, "bam-unmapped-query-panic", format!("{label} index-{how}: {m}")),
+        Ans::Err(k, m) => v.fail(10, "bam-unmapped-query-error", format!("{label} index-{how}: Err({k}: {m}) scan={}", short(&want))),
+        Ans::Names(got) => {
+            let detail = format!("{label} index-{how}: unplaced-unmapped in file={} query={}", short(&want), short(got));
+            if let Some(n) = got.iter().find(|n| by_name.get(n).map(|i| !i.unmapped).unwrap_or(true)) {
+                v.fail(20, "bam-unmapped-query-returns-record-not-flagged-unmapped", format!("{n} {detail}"));
+                return;
+            }
+            let gs: HashSet<&String> = got.iter().collect();
+            if want.iter().any(|n| !gs.contains(n)) {
+                v.fail(20, "bam-unmapped-query-missing", detail);
+                return;
+            }
+            if gs.len() != got.len() {
+                v.fail(20, "bam-unmapped-query-duplicate", detail);
+                return;
+            }
+            // file order (the answer may also hold placed reads flagged unmapped: the statement
+            // only asks that everything returned is flagged unmapped)
+            let rank: HashMap<&String, usize> = order.iter().enumerate().map(|(i, n)| (n, i)).collect();
+            if got.windows(2).any(|w| rank[&w[0]] >= rank[&w[1]]) {
+                v.fail(20, "bam-unmapped-query-order", detail);
+            }
+        }
+    }
+}
+
+fn run_bam(c: &Case) -> Obs {
+    let seed = c.u(0);
+    let opts = c.args.get(1).map(|s| s.as_str()).unwrap_or("");
+    let mut rng = Rng::new(seed);
+    let f = gen_bam(&mut rng, opts);
+    let mut v = Verdicts::new();
+
+    let items: Vec<Item> = f
+        .recs
+        .iter()
+        .map(|r| {
+            let s = r.pos.unwrap_or(0);
+            let span = cigar_ref_len(&r.cigar);
+            let e = if span == 0 { s } else { s + span - 1 };
+            Item { name: r.name.clone(), rid: r.rid, s, e, e2: e, cls: "", unmapped: r.flags & 4 != 0 }
+        })
+        .collect();
+
+    let data = match guarded(AssertUnwindSafe(|| write_bam(&mut rng, &f))) {
+        Outcome::Done(Ok(d)) => d,
+        Outcome::Done(Err(e)) => return Obs::fail("-", "bam-write-error", format!("{e}")),
+        Outcome::Panicked(m) => return Obs::fail("-", "bam-write-panic", m),
+    };
+
+    // full scan: file order, and noodles' own span against the CIGAR arithmetic
+    let scan = guarded(AssertUnwindSafe(|| -> io::Result<Vec<(String, Option<usize>, Option<usize>, Option<usize>)>> {
+        let mut reader = bam::io::Reader::new(&data[..]);
+        reader.read_header()?;
+        let mut out = Vec::new();
+        for r in reader.records() {
+            let r = r?;
+            out.push((
+                rec_name(&r),
+                r.reference_sequence_id().transpose()?,
+                r.alignment_start().transpose()?.map(usize::from),
+                r.alignment_end().transpose()?.map(usize::from),
+            ));
+        }
+        Ok(out)
+    }));
+    let scan = match scan {
+        Outcome::Done(Ok(s)) => s,
+        Outcome::Done(Err(e)) => return Obs::fail("-", "bam-scan-error", format!("{e}")),
+        Outcome::Panicked(m) => return Obs::fail("-", "bam-scan-panic", m),
+    };
+    let order: Vec<String> = scan.iter().map(|s| s.0.clone()).collect();
+    if order != items.iter().map(|i| i.name.clone()).collect::<Vec<_>>() {
+        return Obs::fail("-", "bam-scan-differs-from-written-records", format!("{} written, {} read", items.len(), order.len()));
+    }
+    for (s, i) in scan.iter().zip(&items) {
+        if s.1 != i.rid || (i.rid.is_some() && s.2 != Some(i.s as usize)) {
+            v.fail(1, "bam-scan-position-differs-from-written", format!("{} rid {:?} pos {:?} written {:?} {}", i.name, s.1, s.2, i.rid, i.s));
+        } else if i.rid.is_some() && s.3 != Some(i.e as usize) {
+            v.fail(30, "bam-alignment-end-differs-from-cigar-span", format!("{} start {} cigar end {} alignment_end {:?}", i.name, i.s, i.e, s.3));
+        }
+    }
+
+    let tmp = match Tmp::new(c) {
+        Ok(t) => t,
+        Err(e) => return Obs::fail("-", "harness-tempdir", format!("{e}")),
+    };
+    let path = tmp.path("f.bam");
+    if let Err(e) = fs::write(&path, &data) {
+        return Obs::fail("-", "harness-tempdir", format!("{e}"));
+    }
+
+    let shifts = [(14u64, 5u64), f.geom];
+    let regions = gen_regions(&mut rng, &f.refs, &items, f.maxp, &shifts, 20, true);
+    stats("bam", &f.recs.len(), data.len(), &regions);
+    let mut variants: Vec<(String, bool, Vec<Ans>)> = Vec::new();
+    let mut unmapped: Vec<(String, bool, Ans)> = Vec::new();
+
+    // BAI through the real indexer
+    match ans_of(guarded(AssertUnwindSafe(|| bam::fs::index(&path)))) {
+        Err(a) => v.fail(8, "bam-bai-index-build-fails", format!("{a:?}")),
+        Ok(index) => {
+            let (a, u) = bam_answers_mem(&data, &index, &regions);
+            variants.push(("bai".into(), false, a));
+            unmapped.push(("bai".into(), false, u));
+            match ans_of(guarded(AssertUnwindSafe(|| bai::fs::write(tmp.path("f.bam.bai"), &index)))) {
+                Err(a) => v.fail(8, "bam-bai-index-write-fails", format!("{a:?}")),
+                Ok(()) => {
+                    let (a, u) = bam_answers_file(&path, &regions);
+                    variants.push(("bai".into(), true, a));
+                    unmapped.push(("bai".into(), true, u));
+                }
+            }
+            let _ = fs::remove_file(tmp.path("f.bam.bai"));
+        }
+    }
+    // CSI
+    match ans_of(guarded(AssertUnwindSafe(|| bam_csi_index(&data, f.geom.0 as u8, f.geom.1 as u8)))) {
+        Err(a) => v.fail(8, "bam-csi-index-build-fails", format!("{a:?} geometry {:?}", f.geom)),
+        Ok(index) => {
+            let (a, u) = bam_answers_mem(&data, &index, &regions);
+            variants.push(("csi".into(), false, a));
+            unmapped.push(("csi".into(), false, u));
+            match ans_of(guarded(AssertUnwindSafe(|| csi::fs::write(tmp.path("f.bam.csi"), &index)))) {
+                Err(a) => v.fail(8, "bam-csi-index-write-fails", format!("{a:?}")),
+                Ok(()) => {
+                    let (a, u) = bam_answers_file(&path, &regions);
+                    variants.push(("csi".into(), true, a));
+                    unmapped.push(("csi".into(), true, u));
+                }
+            }
+        }
+    }
+    drop(tmp);
+
+    judge_regions(&mut v, "bam", &items, &order, &regions, &variants, &|_, _| None);
+    for (label, via_file, ans) in &unmapped {
+        judge_unmapped(&mut v, label, if *via_file { "file" } else { "mem" }, &items, &order, ans);
+    }
+    v.finish()
+}
+
+// ---------------------------------------------------------------------------------------------
+// VCF / BCF
+
+const TAG_DEL45: &str = "vcf45-svlen-end-one-base-short-of-spec";
+const TAG_BCF_SVLEN: &str = "bcf45-one-element-wide-svlen-read-as-scalar-index-fails";
+const TAG_INS45: &str = "vcf45-ins-svlen-extends-span-beyond-spec";
+
+struct VRec {
+    id: String,
+    chrom: usize,
+    pos: u64,
+    refb: String,
+    alts: Vec<String>,
+    end: Option<u64>,
+    svlen: Option<Vec<Option<i32>>>,
+    svtype: Option<&'static str>,
+    dp: Option<i32>,
+    /// FORMAT LEN of the one sample (4.5 <*> blocks)
+    len: Option<i32>,
+    spec_end: u64,
+    nd_end: u64,
+    cls: &'static str,
+}
+
+struct VcfFile {
+    version: u32,
+    contigs: Vec<(String, u64)>,
+    recs: Vec<VRec>,
+    samples: bool,
+    maxp: u64,
+}
+
+fn bases(rng: &mut Rng, n: usize) -> String {
+    (0..n).map(|_| b"ACGT"[rng.below(4) as usize] as char).collect()
+}
+
+fn gen_vcf(rng: &mut Rng, opts: &str) -> VcfFile {
+    let pr = profile(opts);
+    let version: u32 = opt(opts, "v").and_then(|s| s.parse().ok()).unwrap_or(43);
+    let svd_level: u32 = opt(opts, "svd").and_then(|s| s.parse().ok()).unwrap_or(0);
+    let svd = svd_level >= 1;
+    // svd=2: a one-element SVLEN stays within -120..127 (wider single values are what the lazy BCF
+    // record mis-decodes as a scalar); wider lengths go to a two-allele record
+    let narrow = svd_level == 2;
+    let maxp = (1u64 << 29) - 1;
+    let shifts = [(14u64, 5u64)];
+    let lens = ref_lengths(rng, maxp, &pr);
+    let pop = populated(rng, lens.len(), &pr);
+    let contigs: Vec<(String, u64)> = lens.iter().enumerate().map(|(i, l)| (format!("c{i}"), *l)).collect();
+    let samples = version >= 45 || rng.chance(1, 3);
+    let mut recs: Vec<VRec> = Vec::new();
+    let del_like = ["<DEL>", "<DUP>", "<INV>", "<CNV>", "<DUP:TANDEM>", "<DEL:ME>"];
+    for (chrom, (_, len)) in contigs.iter().enumerate() {
+        if !pop[chrom] {
+            continue;
+        }
+        for (s, span, big) in layout(rng, *len, &shifts, &pr) {
+            let span = span.max(1);
+            let id = format!("v{}", recs.len());
+            let dp = if rng.chance(1, 2) { Some(rng.below(100) as i32) } else { None };
+            let mut r = VRec {
+                id,
+                chrom,
+                pos: s,
+                refb: String::new(),
+                alts: vec![],
+                end: None,
+                svlen: None,
+                svtype: None,
+                dp,
+                len: None,
+                spec_end: s + span - 1,
+                nd_end: s + span - 1,
+                cls: "",
+            };
+            // how the span is expressed
+            let literal = big || span <= 60 && rng.chance(2, 3) || span <= 5000 && rng.chance(1, 6) || span <= 40000 && rng.chance(1, 40);
+            if literal {
+                r.refb = bases(rng, span as usize);
+                r.alts = match rng.below(4) {
+                    0 => vec![],
+                    1 if span > 1 => vec![r.refb[..1].to_string()],
+                    2 => vec![bases(rng, 1), bases(rng, 2)],
+                    _ => vec![bases(rng, 1)],
+                };
+                if version <= 44 && rng.chance(1, 10) {
+                    r.end = Some(r.spec_end); // redundant, consistent END
+                }
+                if version >= 45 && !r.alts.is_empty() && rng.chance(1, 10) {
+                    // SVLEN that cannot matter under either rule
+                    r.svlen = Some(r.alts.iter().map(|_| None).collect());
+                }
+            } else if version <= 44 {
+                r.refb = bases(rng, 1);
+                r.end = Some(r.spec_end);
+                match rng.below(4) {
+                    0 => {
+                        // gVCF reference block
+                        r.alts = vec![if version == 43 && rng.chance(1, 2) { "<NON_REF>".into() } else { "<*>".into() }];
+                    }
+                    1 if span == 1 => {
+                        r.alts = vec!["<INS>".into()];
+                        r.svtype = Some("INS");
+                        r.svlen = Some(vec![Some(rng.range(1, 5000) as i32)]);
+                        if rng.chance(1, 2) {
+                            r.end = None;
+                        }
+                    }
+                    _ => {
+                        let a = *rng.pick(&del_like);
+                        r.svtype = Some(if a.starts_with("<DEL") { "DEL" } else if a.starts_with("<DUP") { "DUP" } else if a == "<INV>" { "INV" } else { "CNV" });
+                        let l = (span - 1) as i32;
+                        let signed = if version == 43 && a.starts_with("<DEL") { -l } else { l };
+                        if rng.chance(1, 5) {
+                            // multi-allelic: a base and a symbolic allele
+                            r.alts = vec![bases(rng, 1), a.to_string()];
+                            r.svlen = Some(vec![None, Some(signed)]);
+                        } else {
+                            r.alts = vec![a.to_string()];
+                            if rng.chance(4, 5) {
+                                r.svlen = Some(vec![Some(signed)]);
+                            }
+                        }
+                    }
+                }
+            } else if svd && rng.chance(1, 2) {
+                // 4.5: span only from SVLEN
+                r.refb = bases(rng, 1);
+                if span == 1 || rng.chance(1, 6) {
+                    // <INS>: the spec span is POS..POS+|REF|-1 whatever SVLEN says
+                    let x = rng.range(2, 5000);
+                    r.alts = vec!["<INS>".into()];
+                    r.svtype = Some("INS");
+                    r.svlen = Some(vec![Some(x as i32)]);
+                    if narrow && x > 127 {
+                        r.alts = vec![bases(rng, 1), "<INS>".into()];
+                        r.svlen = Some(vec![None, Some(x as i32)]);
+                    }
+                    r.spec_end = s;
+                    r.nd_end = (s + x - 1).min(maxp);
+                    if r.nd_end != s + x - 1 {
+                        // keep the record inside the index range under both rules
+                        r.alts = vec!["<INS>".into()];
+                        r.svlen = Some(vec![Some(1)]);
+                        r.nd_end = s;
+                    }
+                    if r.nd_end != r.spec_end {
+                        r.cls = TAG_INS45;
+                    }
+                } else {
+                    let a = *rng.pick(&del_like);
+                    r.svtype = Some(if a.starts_with("<DEL") { "DEL" } else if a.starts_with("<DUP") { "DUP" } else if a == "<INV>" { "INV" } else { "CNV" });
+                    let l = span - 1; // spec: END = POS + SVLEN
+                    if rng.chance(1, 5) || (narrow && l > 127) {
+                        r.alts = vec![bases(rng, 1), a.to_string()];
+                        r.svlen = Some(vec![None, Some(l as i32)]);
+                    } else {
+                        r.alts = vec![a.to_string()];
+                        r.svlen = Some(vec![Some(l as i32)]);
+                    }
+                    r.nd_end = s + l.max(1) - 1;
+                    if r.nd_end != r.spec_end {
+                        r.cls = TAG_DEL45;
+                    }
+                    if rng.chance(1, 4) {
+                        r.end = Some(r.spec_end); // deprecated in 4.5, consistent with the spec
+                    }
+                }
+            } else {
+                // 4.5 reference block: FORMAT LEN
+                r.refb = bases(rng, 1);
+                r.alts = vec!["<*>".into()];
+                r.len = Some(span as i32);
+            }
+            recs.push(r);
+        }
+    }
+    VcfFile { version, contigs, recs, samples, maxp }
+}
+
+fn vcf_header(f: &VcfFile) -> Result<vcf::Header, String> {
+    let mut s = format!("##fileformat=VCFv{}.{}\n", f.version / 10, f.version % 10);
+    s += "##INFO=<ID=END,Number=1,Type=Integer,Description=\"End position\">\n";
+    s += &format!(
+        "##INFO=<ID=SVLEN,Number={},Type=Integer,Description=\"Length of structural variant\">\n",
+        if f.version == 43 { "." } else { "A" }
+    );
+    s += "##INFO=<ID=SVTYPE,Number=1,Type=String,Description=\"Type of structural variant\">\n";
+    s += "##INFO=<ID=DP,Number=1,Type=Integer,Description=\"Depth\">\n";
+    s += "##FILTER=<ID=PASS,Description=\"All filters passed\">\n";
+    if f.samples {
+        s += "##FORMAT=<ID=GT,Number=1,Type=String,Description=\"Genotype\">\n";
+        s += "##FORMAT=<ID=LEN,Number=1,Type=Integer,Description=\"Length of reference block\">\n";
+    }
+    for (n, l) in &f.contigs {
+        s += &format!("##contig=<ID={n},length={l}>\n");
+    }
+    s += "#CHROM\tPOS\tID\tREF\tALT\tQUAL\tFILTER\tINFO";
+    if f.samples {
+        s += "\tFORMAT\ts0";
+    }
+    s += "\n";
+    s.parse::<vcf::Header>().map_err(|e| format!("{e:?}"))
+}
+
+fn vcf_record_buf(f: &VcfFile, r: &VRec) -> vcf::variant::RecordBuf {
+    let mut info: Vec<(String, Option<IV>)> = Vec::new();
+    if let Some(t) = r.svtype {
+        info.push(("SVTYPE".into(), Some(IV::String(t.into()))));
+    }
+    if let Some(e) = r.end {
+        info.push(("END".into(), Some(IV::Integer(e as i32))));
+    }
+    if let Some(l) = &r.svlen {
+        info.push(("SVLEN".into(), Some(IV::Array(IA::Integer(l.clone())))));
+    }
+    if let Some(d) = r.dp {
+        info.push(("DP".into(), Some(IV::Integer(d))));
+    }
+    let mut b = vcf::variant::RecordBuf::builder()
+        .set_reference_sequence_name(f.contigs[r.chrom].0.clone())
+        .set_variant_start(pos(r.pos))
+        .set_ids([r.id.clone()].into_iter().collect::<Ids>())
+        .set_reference_bases(r.refb.clone())
+        .set_alternate_bases(AlternateBases::from(r.alts.clone()))
+        .set_info(info.into_iter().collect::<Info>());
+    if f.samples {
+        let (keys, vals): (Vec<String>, Vec<Option<SV>>) = match r.len {
+            Some(l) => (vec!["GT".into(), "LEN".into()], vec![Some(SV::String("0/0".into())), Some(SV::Integer(l))]),
+            None => (vec!["GT".into()], vec![Some(SV::String("0/1".into()))]),
+        };
+        b = b.set_samples(Samples::new(keys.into_iter().collect::<Keys>(), vec![vals]));
+    }
+    b.build()
+}
+
+fn write_vcf_like(f: &VcfFile, header: &vcf::Header, bcf_fmt: bool) -> io::Result<Vec<u8>> {
+    if bcf_fmt {
+        let mut w = bcf::io::Writer::new(Vec::new());
+        w.write_header(header)?;
+        for r in &f.recs {
+            w.write_variant_record(header, &vcf_record_buf(f, r))?;
+        }
+        w.try_finish()?;
+        Ok(w.into_inner().into_inner())
+    } else {
+        let mut w = vcf::io::Writer::new(bgzf::io::Writer::new(Vec::new()));
+        w.write_header(header)?;
+        for r in &f.recs {
+            w.write_variant_record(header, &vcf_record_buf(f, r))?;
+        }
+        w.into_inner().finish()
+    }
+}
+
+type ScanRow = (String, String, Option<usize>, Option<usize>);
+
+fn scan_vcf_like(data: &[u8], bcf_fmt: bool) -> io::Result<Vec<ScanRow>> {
+    let mut out = Vec::new();
+    if bcf_fmt {
+        let mut reader = bcf::io::Reader::new(data);
+        let header = reader.read_header()?;
+        for r in reader.records() {
+            let r = r?;
+            out.push((
+                String::from_utf8_lossy(r.ids().as_ref()).into_owned(),
+                r.reference_sequence_name(header.string_maps())?.to_string(),
+                r.variant_start().transpose()?.map(usize::from),
+                r.variant_end(&header).ok().map(usize::from),
+            ));
+        }
+    } else {
+        let mut reader = vcf::io::Reader::new(bgzf::io::Reader::new(data));
+        let header = reader.read_header()?;
+        for r in reader.records() {
+            let r = r?;
+            out.push((
+                r.ids().as_ref().to_string(),
+                r.reference_sequence_name().to_string(),
+                r.variant_start().transpose()?.map(usize::from),
+                r.variant_end(&header).ok().map(usize::from),
+            ));
+        }
+    }
+    Ok(out)
+}
+
+fn vcf_answers<I: BinningIndex>(data: &[u8], bcf_fmt: bool, index: &I, regions: &[Q]) -> Vec<Ans> {
+    regions
+        .iter()
+        .map(|q| {
+            let r = guarded(AssertUnwindSafe(|| -> io::Result<Vec<String>> {
+                if bcf_fmt {
+                    let mut reader = bcf::io::Reader::new(Cursor::new(data));
+                    let header = reader.read_header()?;
+                    let query = reader.query(&header, index, &q.region())?;
+                    query.records().map(|r| r.map(|r| String::from_utf8_lossy(r.ids().as_ref()).into_owned())).collect()
+                } else {
+                    let mut reader = vcf::io::Reader::new(bgzf::io::Reader::new(Cursor::new(data)));
+                    let header = reader.read_header()?;
+                    let query = reader.query(&header, index, &q.region())?;
+                    query.records().map(|r| r.map(|r| r.ids().as_ref().to_string())).collect()
+                }
+            }));
+            match ans_of(r) {
+                Ok(v) => Ans::Names(v),
+                Err(a) => a,
+            }
+        })
+        .collect()
+}
+
+fn vcf_answers_file(path: &Path, bcf_fmt: bool, regions: &[Q]) -> Vec<Ans> {
+    regions
+        .iter()
+        .map(|q| {
+            let r = guarded(AssertUnwindSafe(|| -> io::Result<Vec<String>> {
+                if bcf_fmt {
+                    let mut reader = bcf::io::indexed_reader::Builder::default().build_from_path(path)?;
+                    let header = reader.read_header()?;
+                    let query = reader.query(&header, &q.region())?;
+                    query.records().map(|r| r.map(|r| String::from_utf8_lossy(r.ids().as_ref()).into_owned())).collect()
+                } else {
+                    let mut reader = vcf::io::indexed_reader::Builder::default().build_from_path(path)?;
+                    let header = reader.read_header()?;
+                    let query = reader.query(&header, &q.region())?;
+                    query.records().map(|r| r.map(|r| r.ids().as_ref().to_string())).collect()
+                }
+            }));
+            match ans_of(r) {
+                Ok(v) => Ans::Names(v),
+                Err(a) => a,
+            }
+        })
+        .collect()
+}
+
+fn run_vcf_like(c: &Case, bcf_fmt: bool) -> Obs {
+    let fmt = if bcf_fmt { "bcf" } else { "vcf" };
+    let seed = c.u(0);
+    let opts = c.args.get(1).map(|s| s.as_str()).unwrap_or("");
+    let mut rng = Rng::new(seed);
+    let f = gen_vcf(&mut rng, opts);
+    let mut v = Verdicts::new();
+    let header = match vcf_header(&f) {
+        Ok(h) => h,
+        Err(e) => return Obs::fail("-", "harness-vcf-header", e),
+    };
+    let items: Vec<Item> = f
+        .recs
+        .iter()
+        .map(|r| Item { name: r.id.clone(), rid: Some(r.chrom), s: r.pos, e: r.spec_end, e2: r.nd_end, cls: r.cls, unmapped: false })
+        .collect();
+
+    let data = match guarded(AssertUnwindSafe(|| write_vcf_like(&f, &header, bcf_fmt))) {
+        Outcome::Done(Ok(d)) => d,
+        Outcome::Done(Err(e)) => return Obs::fail("-", &format!("{fmt}-write-error"), format!("{e}")),
+        Outcome::Panicked(m) => return Obs::fail("-", &format!("{fmt}-write-panic"), m),
+    };
+    let scan = match guarded(AssertUnwindSafe(|| scan_vcf_like(&data, bcf_fmt))) {
+        Outcome::Done(Ok(s)) => s,
+        Outcome::Done(Err(e)) => return Obs::fail("-", &format!("{fmt}-scan-error"), format!("{e}")),
+        Outcome::Panicked(m) => return Obs::fail("-", &format!("{fmt}-scan-panic"), m),
+    };
+    let order: Vec<String> = scan.iter().map(|s| s.0.clone()).collect();
+    if order != items.iter().map(|i| i.name.clone()).collect::<Vec<_>>() {
+        return Obs::fail("-", &format!("{fmt}-scan-differs-from-written-records"), format!("{} written, {} read", items.len(), order.len()));
+    }
+    for (k, (s, i)) in scan.iter().zip(&items).enumerate() {
+        if s.1 != f.contigs[i.rid.unwrap()].0 || s.2 != Some(i.s as usize) {
+            v.fail(1, format!("{fmt}-scan-position-differs-from-written"), format!("{} {} {:?}", i.name, s.1, s.2));
+        } else if s.3.is_none() {
+            let r = &f.recs[k];
+            let wide = bcf_fmt && f.version >= 45 && matches!(r.svlen.as_deref(), Some([Some(n)]) if !(-120..=127).contains(n));
+            if wide {
+                v.fail(70, TAG_BCF_SVLEN, format!("record {} POS {} SVLEN {:?}: variant_end fails", i.name, i.s, r.svlen));
+            } else {
+                v.fail(30, format!("{fmt}-variant-end-error"), format!("record {} v4.{} POS {} spec end {}", i.name, f.version % 10, i.s, i.e));
+            }
+        } else if s.3 != Some(i.e as usize) {
+            if s.3 == Some(i.e2 as usize) {
+                v.fail(85, i.cls, format!("record {} v4.{} POS {} spec end {} variant_end {:?}", i.name, f.version % 10, i.s, i.e, s.3));
+            } else {
+                v.fail(30, format!("{fmt}-variant-end-differs-from-spec-span"), format!("record {} v4.{} POS {} spec end {} variant_end {:?}", i.name, f.version % 10, i.s, i.e, s.3));
+            }
+        }
+    }
+
+    let tmp = match Tmp::new(c) {
+        Ok(t) => t,
+        Err(e) => return Obs::fail("-", "harness-tempdir", format!("{e}")),
+    };
+    let fname = if bcf_fmt { "f.bcf" } else { "f.vcf.gz" };
+    let path = tmp.path(fname);
+    if let Err(e) = fs::write(&path, &data) {
+        return Obs::fail("-", "harness-tempdir", format!("{e}"));
+    }
+    // (a tabix index only lists contigs that have records; regions on other contigs only with ec=1)
+    let regions = gen_regions(&mut rng, &f.contigs, &items, f.maxp, &[(14, 5)], 20, bcf_fmt || opt(opts, "ec") == Some("1"));
+    stats(fmt, &f.recs.len(), data.len(), &regions);
+    let mut variants: Vec<(String, bool, Vec<Ans>)> = Vec::new();
+    let label = if bcf_fmt { "csi" } else { "tabix" };
+    if bcf_fmt {
+        match ans_of(guarded(AssertUnwindSafe(|| bcf::fs::index(&path)))) {
+            Err(a) => {
+                // cause: a one-element SVLEN outside -120..127 is decoded as a scalar by the lazy
+                // record, which variant_end (4.5) rejects
+                let wide = f.version >= 45
+                    && f.recs.iter().any(|r| matches!(r.svlen.as_deref(), Some([Some(n)]) if !(-120..=127).contains(n)));
+                if wide && matches!(&a, Ans::Err(k, _) if k == "InvalidData") {
+                    v.fail(70, TAG_BCF_SVLEN, format!("bcf::fs::index: {a:?}"));
+                } else {
+                    v.fail(8, "bcf-csi-index-build-fails", format!("{a:?}"));
+                }
+            }
+            Ok(index) => {
+                variants.push((label.into(), false, vcf_answers(&data, true, &index, &regions)));
+                match ans_of(guarded(AssertUnwindSafe(|| csi::fs::write(tmp.path("f.bcf.csi"), &index)))) {
+                    Err(a) => v.fail(8, "bcf-csi-index-write-fails", format!("{a:?}")),
+                    Ok(()) => variants.push((label.into(), true, vcf_answers_file(&path, true, &regions))),
+                }
+            }
+        }
+    } else {
+        match ans_of(guarded(AssertUnwindSafe(|| vcf::fs::index(&path)))) {
+            Err(a) => v.fail(8, "vcf-tabix-index-build-fails", format!("{a:?}")),
+            Ok(index) => {
+                variants.push((label.into(), false, vcf_answers(&data, false, &index, &regions)));
+                match ans_of(guarded(AssertUnwindSafe(|| tabix::fs::write(tmp.path("f.vcf.gz.tbi"), &index)))) {
+                    Err(a) => v.fail(8, "vcf-tabix-index-write-fails", format!("{a:?}")),
+                    Ok(()) => variants.push((label.into(), true, vcf_answers_file(&path, false, &regions))),
+                }
+            }
+        }
+    }
+    drop(tmp);
+
+    // a tabix index only knows the contigs that have records: a region on a contig of the VCF
+    // header without records is refused instead of answered with the empty set
+    let mut has = vec![false; f.contigs.len()];
+    for i in &items {
+        has[i.rid.unwrap()] = true;
+    }
+    let known_err = move |q: &Q, kind: &str| -> Option<&'static str> {
+        if !bcf_fmt && !has[q.rid] && kind == "InvalidInput" { Some("vcf-tabix-query-on-contig-without-records-is-an-error") } else { None }
+    };
+    judge_regions(&mut v, fmt, &items, &order, &regions, &variants, &known_err);
+    v.finish()
+}
+
+// ---------------------------------------------------------------------------------------------
+
+pub fn run(c: &Case) -> Option<Obs> {
+    match c.kind.as_str() {
+        "bam" => Some(run_bam(c)),
+        "bcf" => Some(run_vcf_like(c, true)),
+        "vcfgz" => Some(run_vcf_like(c, false)),
+        _ => None,
+    }
 }
